@@ -10,7 +10,7 @@ import subprocess
 
 from common import ENV, HARNESS_BIN, hx
 
-LEVEL = "other"
+LEVEL = "proof"
 SLACK = 64 * 1024
 
 
